@@ -208,6 +208,33 @@ def c11b(ck, prog):
               "" if okv else "valid::value() answers `%s`: not the percent-decoding of the bytes it validated (a rewriting step in between changes which string a legal cookie-octet sequence denotes, e.g. `+` read as a space)" % d[:120],
               how="percent_decode[_utf8] of a sub-slice of the argument")
     ck.floor(R, "values answered by valid::value", n, 1)
+    # ... after stripping one pair of double quotes, whenever the value has both (RFC 6265: cookie-value = *cookie-octet /
+    # ( DQUOTE *cookie-octet DQUOTE ), the empty quoted value `""` included): the strip `bytes[1..len-1]` runs under
+    # `len >= 2` (not `> 2`), first == '"' and last == '"'; or is written with strip_prefix / strip_suffix of `"`
+    strips = [c for c in v.calls() if c.name in ("index", "get_unchecked", "get") and len(c.args) > 1 and re.match(r"^Range\{const 1,Sub(WithOverflow)?\(len\(.*arg1.*\),const 1\)(\.0)?\}$", decision.describe_deep(v, c.args[1], 6))]
+    fam_v = [v] + [g for k in [v.key] + list(v.rec.get("inlined") or []) for g in prog.descendants(k)]      # closures of and_then(..) included
+    sp = [c for g in {g.key: g for g in fam_v}.values() for c in g.calls() if c.name in ("strip_prefix", "strip_suffix")]
+    if strips:
+        c = strips[0]
+        lo = None
+        quotes = 0
+        for fa in guards.facts_at(v, prog, c.bb):
+            if fa.kind == "cmp":
+                l, r = guards.describe_origin(v, fa.lhs), guards.describe_origin(v, fa.rhs)
+                if "len" in l and r.startswith("const "):
+                    k = int(r.split()[1])
+                    lo = {"Ge": k, "Gt": k + 1, "Ne": (1 if k == 0 else None)}.get(fa.op, None) if lo is None else lo
+                elif fa.op == "Eq" and r == "const 34":
+                    quotes += 1
+        okq = lo == 2 and quotes >= 2
+        ck.ob(R, "request-value:quote-strip", okq, v.loc(c.sp), "" if okq else "the surrounding double quotes of a cookie value are stripped only when its length is at least %s (and %d quote test(s)): RFC 6265 allows the empty quoted value `\"\"`, which then keeps its quotes and is refused" % (lo, quotes),
+              how="strip under len >= 2, first == '\"', last == '\"'")
+    elif len(sp) >= 2:
+        lits = sorted((c.fn.const_args(c)[1] or {}).get("b") and bytes((c.fn.const_args(c)[1] or {}).get("b")).decode("latin1") or (c.fn.const_args(c)[1] or {}).get("s") or "?" for c in sp)
+        okq = all(x.strip("\x00") == '"' or x == '"' for x in lits)
+        ck.ob(R, "request-value:quote-strip", okq, v.loc(sp[0].sp), "" if okq else "the quote stripping strips %r, expected one double quote at each end" % lits, how="strip_prefix(\"\\\"\") + strip_suffix(\"\\\"\")")
+    else:
+        ck.ob(R, "request-value:quote-strip", False, v.loc(None), "no stripping of a surrounding pair of double quotes was found in valid::value: a quoted cookie value (RFC 6265) would be refused at its quotes")
 
 
 def c11c(ck, prog):
